@@ -595,7 +595,12 @@ class PartialOps:
             out.append(PSite(fn, node, "CODEC", ["UnicodeDecodeError"], note="codecs.decode may reject its input"))
             return
         if ext in ("json.loads", "json.load"):
-            out.append(PSite(fn, node, "CODEC", ["json.JSONDecodeError"], note="json decoding"))
+            # bytes (what a file opened in binary mode gives) are decoded as UTF-8 first
+            names = self._tynames(fn, node.args[0]) if node.args else None
+            text_only = ext == "json.loads" and (
+                (names is not None and names <= {"str"}) or isinstance(node.args[0] if node.args else None, (ast.JoinedStr, ast.Constant)))
+            classes = ["json.JSONDecodeError"] if text_only else ["json.JSONDecodeError", "UnicodeDecodeError"]
+            out.append(PSite(fn, node, "CODEC", classes, note="json decoding" + ("" if text_only else " of text or bytes")))
             return
         if isinstance(f, ast.Attribute) and f.attr in ("decode", "encode"):
             recv_names = self._tynames(fn, f.value)
